@@ -81,12 +81,13 @@ def cecase(c):
     cmds = core.clist([ccmd(e, lc) for e, lc in zip(c.get("db") or [], c.get("cmd_lc") or [])])
     return ("{| k_stop := stopw; k_tools := toolw; k_host := %s; k_params := %s; k_idf := %s; k_fuzzy := %s; k_cmds := %s; k_q := %s; "
             "k_opts := %s; k_nlp := %s; k_obs := %s; k_extra := %s; k_recased := %s; k_nlp_keywords := %s; k_nlp_sig := %s; k_nlp_sig2 := %s; k_doc_toks := %s; k_q_toks := %s; k_logt := %s; k_tabs := {| t_stop := stopw; t_actions := nlp_actions; t_targets := nlp_targets; t_synonyms := nlp_synonyms |}; "
-            "k_words := %s; k_qlower := %s; k_nlp_intent := %s; k_nlp_hints := %s |}") % (
+            "k_words := %s; k_qlower := %s; k_nlp_intent := %s; k_nlp_hints := %s; k_legacy := %s; k_legacy_words := %s |}") % (
         core.cbytes(bytes(c["host"] or [])), params, core.clist([core.cfloat(x) for x in c["idf"]]), fz, cmds,
         core.cbytes(bytes(c["q"] or [])), copts(c["opts"]), cnlp(c["nlp"]), cres(c.get("obs")), extra,
         core.cbytes(bytes(c.get("recased") or [])), cbl(c["nlp"].get("keywords")), cbl(c["nlp"].get("sig")), cbl(c["nlp"].get("sig2")),
         core.clist([cbl(d) for d in (c["nlp"].get("doc_toks") or [])]), cbl(c["nlp"].get("q_toks")), core.clist([core.cfloat(x) for x in (c["nlp"].get("logt") or [])]),
-        cbl(c["nlp"].get("words")), core.cbytes(bytes(c["nlp"].get("q_lower") or [])), INTENTS.get(c["nlp"].get("intent"), "IGeneral"), cbl(c["nlp"].get("hints")))
+        cbl(c["nlp"].get("words")), core.cbytes(bytes(c["nlp"].get("q_lower") or [])), INTENTS.get(c["nlp"].get("intent"), "IGeneral"), cbl(c["nlp"].get("hints")),
+        core.clist([core.cfloat(x) for x in (c.get("legacy") or [])]), cbl(c.get("legacy_words")))
 
 
 _TAB = {}
